@@ -306,3 +306,11 @@ func (f *VFramed) VRecvReply() (tag string, size int, m unixsocket.Msg, err erro
 	}
 	return
 }
+
+// VInitPid returns the host-side pid of the container init of an environment built by Builder.
+func VInitPid(e Environment) int {
+	if c, ok := e.(*container); ok && c.process != nil {
+		return c.process.Pid
+	}
+	return 0
+}
